@@ -124,6 +124,7 @@ inductive Atom (α : Type) where
   | num (v : α)
   | named (n : Bytes)
   | idx (i : Int)
+  deriving DecidableEq
 
 def Atom.eval {α : Type} (b : Binding α) : Atom α → α
   | .num v => v
